@@ -12,6 +12,7 @@ import (
 	"github.com/tidwall/tile38/internal/field"
 	"github.com/tidwall/tile38/internal/log"
 	"github.com/tidwall/tile38/internal/object"
+	"github.com/tidwall/tile38/internal/verifhook"
 )
 
 const maxkeys = 8
@@ -35,6 +36,7 @@ func (s *Server) aofshrink() {
 		s.shrinklog = nil
 		s.mu.Unlock()
 		log.Infof("aof shrink ended %v", time.Since(start))
+		verifhook.Stage(s.dir, "ended")
 	}()
 
 	err := func() error {
@@ -70,6 +72,7 @@ func (s *Server) aofshrink() {
 						},
 					)
 				}()
+				verifhook.Stage(s.dir, "keys-batch")
 				continue
 			}
 
@@ -149,6 +152,7 @@ func (s *Server) aofshrink() {
 					)
 
 				}()
+				verifhook.Stage(s.dir, "ids-batch")
 				if len(aofbuf) > maxchunk {
 					if _, err := f.Write(aofbuf); err != nil {
 						return err
@@ -221,6 +225,7 @@ func (s *Server) aofshrink() {
 		if err := f.Sync(); err != nil {
 			return err
 		}
+		verifhook.Stage(s.dir, "before-swap")
 
 		// finally grab any new data that may have been written since
 		// the aofshrink has started and swap out the files.
@@ -242,6 +247,7 @@ func (s *Server) aofshrink() {
 
 			// flush the aof buffer
 			s.flushAOF(false)
+			verifhook.Stage(s.dir, "swap:flushed")
 
 			aofbuf = aofbuf[:0]
 			for _, values := range s.shrinklog {
@@ -263,6 +269,7 @@ func (s *Server) aofshrink() {
 			if err := f.Sync(); err != nil {
 				return err
 			}
+			verifhook.Stage(s.dir, "swap:shrinklog-synced")
 			// we now have a shrunken aof file that is fully in-sync with
 			// the current dataset. let's swap out the on disk files and
 			// point to the new file.
@@ -275,12 +282,15 @@ func (s *Server) aofshrink() {
 			if err := f.Close(); err != nil {
 				log.Fatalf("shrink new aof close fatal operation: %v", err)
 			}
+			verifhook.Stage(s.dir, "swap:closed")
 			if err := os.Rename(s.opts.AppendFileName, s.opts.AppendFileName+"-bak"); err != nil {
 				log.Fatalf("shrink backup fatal operation: %v", err)
 			}
+			verifhook.Stage(s.dir, "swap:renamed-bak")
 			if err := os.Rename(s.opts.AppendFileName+"-shrink", s.opts.AppendFileName); err != nil {
 				log.Fatalf("shrink rename fatal operation: %v", err)
 			}
+			verifhook.Stage(s.dir, "swap:renamed-live")
 			s.aof, err = os.OpenFile(s.opts.AppendFileName, os.O_CREATE|os.O_RDWR, 0600)
 			if err != nil {
 				log.Fatalf("shrink openfile fatal operation: %v", err)
@@ -291,8 +301,10 @@ func (s *Server) aofshrink() {
 				log.Fatalf("shrink seek end fatal operation: %v", err)
 			}
 			s.aofsz = int(n)
+			verifhook.Stage(s.dir, "swap:reopened")
 
 			os.Remove(s.opts.AppendFileName + "-bak") // ignore error
+			verifhook.Stage(s.dir, "swap:bak-removed")
 
 			return nil
 		}()
